@@ -651,6 +651,102 @@ def sigchld_history(focus):
     stats["ops_len_%02d" % (len(h.ops) // 10 * 10)] += 1
     return h.ops
 
+def longdelay_history(focus):
+    """relative timers whose delay in milliseconds, multiplied by 1000, does not fit a C int (above INT_MAX/1000 ms,
+    about 35.8 minutes: 36 min .. 24 days), registered from outside or from a callback, next to short ones; the loop
+    iterates at once, again after a clock advance that stays before the deadline, and after the deadline"""
+    h = Hist(focus)
+    stats["histories_longdelay"] += 1
+    if rng.random() < 0.5:
+        us = rng.choice([1, 999, 500001, 999999]); h.ops.append(f"clock {us}"); h.clock += us
+    longs = []
+    for _ in range(rng.choice([1, 1, 2])):
+        ms = rng.choice([2147484, 2147483, 2147485, 40 * 60 * 1000, 36 * 60 * 1000 + rng.randint(0, 999), 3600 * 1000,
+                         4294968, 4294967, 6442451, 86400 * 1000, rng.randint(2147484, 2000000000), 2147483647])
+        k = h.slot("timer"); f = h.flags()
+        behs = []
+        if rng.random() < 0.3:
+            h.add_beh(k, "timer", 0, behs)
+        h.ops += behs
+        if rng.random() < 0.25:
+            k0 = h.slot("later")
+            h.ops.append(f"beh {k0} 0 T,{k},{ms},{f}")
+            h.ops.append(f"later {k0} 0")
+            stats["longdelay_in_cb"] += 1
+        else:
+            h.ops.append(f"timer {k} {ms} {f}"); stats["longdelay_top"] += 1
+        longs.append((k, h.clock + ms * 1000))
+        if rng.random() < 0.5:
+            h.reg_top("timer")
+    h.ops.append("tick"); stats["tick"] += 1
+    for _ in range(rng.randint(0, 3)):
+        h.step()
+    first = min(d for _, d in longs)
+    # stay before the first long deadline
+    room = first - h.clock
+    if room > 10000000 and room < 2000000000000:
+        step = rng.choice([room // 2, room - 5000000, 1000000, 2147483648 if room > 2200000000 else 1000000])
+        h.ops.append(f"clock {step}"); h.clock += step; stats["clock"] += 1
+        h.ops.append(rng.choice(["tick", "tick", "tickhang"])); stats["tick"] += 1
+        if rng.random() < 0.5:
+            k, _d = rng.choice(longs)
+            if k in h.top_live: h.top_live.remove(k)
+            h.ops.append(f"cancel {k}"); stats["longdelay_cancel"] += 1
+        elif h.clock < first:
+            step = first - h.clock + rng.choice([-1, 0, 1, 1000])
+            h.ops.append(f"clock {step}"); h.clock += step; stats["clock"] += 1
+            h.ops.append("tick"); h.ops.append("tick"); stats["tick"] += 2
+    h.finish()
+    stats["histories"] += 1
+    stats["ops_len_%02d" % (len(h.ops) // 10 * 10)] += 1
+    return h.ops
+
+
+def blocked_history(focus):
+    """the application has signals blocked in its own mask when the instance is built (`new Cnn blk=…`: a threaded
+    program that blocks signals in main), then watches them: every delivery - before an iteration, inside the wait,
+    from a callback - must still reach the watchers within the next iterations"""
+    h = Hist(focus)
+    stats["histories_blocked"] += 1
+    sigs = rng.sample(SIGS, rng.choice([1, 1, 2]))
+    if rng.random() < 0.2:
+        sigs.append(28)                      # SIGWINCH, which the instance itself watches
+    h.ops[0] += " blk=" + ",".join(str(x) for x in sigs)
+    mine = [x for x in sigs if x != 28]
+    for sg in mine:
+        for _ in range(rng.choice([1, 1, 2])):
+            k = h.slot("signal"); f = h.flags()
+            behs = []
+            if rng.random() < 0.3:
+                h.add_beh(k, "signal", 0, behs)
+            h.ops += behs
+            h.ops.append(f"signal {k} {sg} {f}")
+            h.persistent.append(k); h.top_live.append(k); h.watched_sigs.add(sg)
+            stats["reg_top_signal"] += 1
+    if rng.random() < 0.4:
+        h.reg_top()
+    for _ in range(rng.choice([1, 2, 3])):
+        sg = rng.choice(mine)
+        c = rng.random()
+        if c < 0.45:
+            h.ops.append(f"raise {sg}"); stats["raise_pre"] += 1
+        elif c < 0.8:
+            h.ops.append(f"inpoll {sg}"); stats["raise_inpoll"] += 1
+        else:
+            k = h.slot("later")
+            h.ops.append(f"beh {k} 0 R,{sg}")
+            h.ops.append(f"later {k} 0"); stats["act_raise"] += 1
+        h.ops.append(rng.choice(["tick", "tick", "tickhang"])); stats["tick"] += 1
+        if rng.random() < 0.5:
+            h.ops.append("tick"); stats["tick"] += 1
+    for _ in range(rng.randint(0, 6)):
+        h.step()
+    h.finish()
+    stats["histories"] += 1
+    stats["ops_len_%02d" % (len(h.ops) // 10 * 10)] += 1
+    return h.ops
+
+
 def random_history(focus):
     c = rng.random()
     if c < 0.2:
@@ -663,6 +759,10 @@ def random_history(focus):
         return winch_history(focus)
     if c < 0.52:
         return unbind_history(focus)
+    if c < 0.56 and focus == "C17":
+        return longdelay_history(focus)
+    if c < 0.58 and focus == "C18":
+        return blocked_history(focus)
     fb = rng.random() < 0.25
     h = Hist(focus, fb)
     if fb:
